@@ -1,4 +1,4 @@
-import MitmVerif.Model.C42_Spec
+import MitmVerif.Model.C42_Print
 import Driver.Proto
 open MitmVerif Driver
 
@@ -130,6 +130,36 @@ partial def pCL : Nat → List String → Option (CL × List String)
   | _, _ => none
 end
 
+/-! trees on the wire: T := U code | R code arg | I code n | N T | A k T{k} | O k T{k} -/
+mutual
+partial def pT : List String → Option (Ast × List String)
+  | "U" :: c :: ts => (strOfHex c).map (fun c => (Ast.unary c, ts))
+  | "R" :: c :: a :: ts =>
+    match strOfHex c, strOfHex a with
+    | some c, some a => some (Ast.rex c a, ts)
+    | _, _ => none
+  | "I" :: c :: n :: ts =>
+    match strOfHex c, n.toNat? with
+    | some c, some n => some (Ast.int c n, ts)
+    | _, _ => none
+  | "N" :: ts => (pT ts).map (fun (t, r) => (Ast.not t, r))
+  | "A" :: k :: ts =>
+    match k.toNat? with
+    | some n => (pTL n ts).map (fun (l, r) => (Ast.and l, r))
+    | none => none
+  | "O" :: k :: ts =>
+    match k.toNat? with
+    | some n => (pTL n ts).map (fun (l, r) => (Ast.or l, r))
+    | none => none
+  | _ => none
+partial def pTL : Nat → List String → Option (List Ast × List String)
+  | 0, ts => some ([], ts)
+  | n + 1, ts =>
+    match pT ts with
+    | some (t, r) => (pTL n r).map (fun (l, r') => (t :: l, r'))
+    | none => none
+end
+
 def step (line : String) : String :=
   match fields line with
   | "px" :: h :: bits =>
@@ -150,6 +180,10 @@ def step (line : String) : String :=
     match pC ts with
     | some (e, []) =>
       hexOfStr e.render ++ " " ++ (if decide e.WF then "1" else "0") ++ " " ++ shape e.ast
+    | _ => "bad-op"
+  | "pr" :: ts =>
+    match pT ts with
+    | some (t, []) => hexOfStr (print t)
     | _ => "bad-op"
   | _ => "bad-op"
 
